@@ -10,5 +10,6 @@ rc=$?
 git -C /repo checkout -- .
 # rebuild the harness against the restored tree, so that no later run uses a binary with the seeded change
 (cd /verif/harness && RUSTFLAGS="--cfg resvg_verif" cargo build --offline -q 2>/dev/null)
+if [ "$prop" = C20 ]; then (cd /repo && RUSTFLAGS="" cargo build --offline -q --config profile.dev.opt-level=2 -p resvg -p usvg --bins --target-dir /verif/harness/target/cli 2>/dev/null); fi
 grep -E "VIOLATION|^C[0-9]+ tier" /tmp/seedtest-$name-$prop.log | cut -c1-300
 echo "exit=$rc"
